@@ -287,7 +287,7 @@ func (h *HttpServer) handleStreamInit(w http.ResponseWriter, r *http.Request) {
 		// The producer's first turn folds into this /init request, so the init
 		// request's custom metadata is what the pipe transports would have
 		// delivered on the first tick batch.
-		finished, err := h.runProduceLoop(ctx, writer, outputSchema, state.(ProducerState), info, stats, auth, transportMeta, callCtx.Cookies, callCtx.stickySink, requestMetadata(req))
+		finished, err := h.runProduceLoopCapped(ctx, writer, func() int64 { return int64(buf.Len()) }, outputSchema, state.(ProducerState), info, stats, auth, transportMeta, callCtx.Cookies, callCtx.stickySink, requestMetadata(req))
 		handlerErr = err
 		if err == nil && !finished {
 			// Batch limit reached — append continuation token
@@ -645,7 +645,7 @@ func (h *HttpServer) handleProducerContinuation(ctx context.Context, w http.Resp
 	// framework's own transport keys are stripped first — the pipe transports
 	// never put them on a tick, and the stream-state value is a sealed cursor
 	// token that must not surface to user code.
-	finished, err := h.runProduceLoop(ctx, writer, schema, state, info, stats, auth, transportMeta, cookies, sink, stripFrameworkTickMetadata(requestMeta))
+	finished, err := h.runProduceLoopCapped(ctx, writer, func() int64 { return int64(buf.Len()) }, schema, state, info, stats, auth, transportMeta, cookies, sink, stripFrameworkTickMetadata(requestMeta))
 	if err == nil && !finished {
 		// Batch limit reached — append continuation token
 		token, tokenErr := h.packCursorTokenFor(info.Name, callID, state, auth)
@@ -985,6 +985,17 @@ func stripFrameworkTickMetadata(meta arrow.Metadata) arrow.Metadata {
 // client has no opportunity to update mid-turn.
 func (h *HttpServer) runProduceLoop(ctx context.Context, writer *ipc.Writer, schema *arrow.Schema,
 	state ProducerState, info *methodInfo, stats *CallStatistics, auth *AuthContext, transportMeta map[string]string, cookies map[string]string, sink *stickySink, firstTickMeta arrow.Metadata) (bool, error) {
+	return h.runProduceLoopCapped(ctx, writer, nil, schema, state, info, stats, auth, transportMeta, cookies, sink, firstTickMeta)
+}
+
+// runProduceLoopCapped is runProduceLoop with max_response_bytes enforced:
+// bodySize reports the bytes written to the response body so far, and once
+// a flushed cycle has taken the body to the cap the turn ends exactly like a
+// batch-limit stop, so the caller appends a continuation token and the rest
+// of the stream arrives on later turns. The cap is soft for producers: the
+// cycle that crosses it is still delivered (at most one data batch over).
+func (h *HttpServer) runProduceLoopCapped(ctx context.Context, writer *ipc.Writer, bodySize func() int64, schema *arrow.Schema,
+	state ProducerState, info *methodInfo, stats *CallStatistics, auth *AuthContext, transportMeta map[string]string, cookies map[string]string, sink *stickySink, firstTickMeta arrow.Metadata) (bool, error) {
 
 	dataBatches := 0
 	firstTick := true
@@ -1124,6 +1135,10 @@ func (h *HttpServer) runProduceLoop(ctx context.Context, writer *ipc.Writer, sch
 
 		// Check batch limit
 		if h.producerBatchLimit > 0 && dataBatches >= h.producerBatchLimit {
+			return false, nil
+		}
+		// Check the response-size cap
+		if h.maxResponseBytes > 0 && bodySize != nil && bodySize() >= h.maxResponseBytes {
 			return false, nil
 		}
 	}
